@@ -1199,7 +1199,11 @@ func (pc ParseContext) compileBytes(ctx context.Context, b ast.Branch, c ast.Chi
 func (pc ParseContext) compileExprs(ctx context.Context, exprs ...ast.Node) ([]rel.Expr, error) {
 	result := make([]rel.Expr, 0, len(exprs))
 	for _, expr := range exprs {
-		e, err := pc.CompileExpr(ctx, expr.(ast.Branch))
+		branch, is := expr.(ast.Branch)
+		if !is {
+			return nil, fmt.Errorf("misshapen node AST: expression expected, not %v", expr)
+		}
+		e, err := pc.CompileExpr(ctx, branch)
 		if err != nil {
 			return nil, err
 		}
